@@ -919,6 +919,7 @@ Lemma bind_memory_inv v s image res off : VamInvM v [] [] -> let '(v', r) := bin
 Proof.
   intros HI. unfold bind_memory. destruct (res =? 0); [apply res_post_refl; auto|].
   destruct (a_allocated (get_alloc v s)) eqn:Ea; cbn [negb]; [|apply res_post_refl; auto].
+  destruct (off <? 0); [apply res_post_refl; auto|].
   match goal with |- context [match ?t with OK _ => _ | ER _ => _ | PANIC => _ | STUCK => _ end] => destruct t as [o|code| |] end;
     try (apply res_post_refl; auto); try exact I.
   pose proof (dev_bind_sameA c Hc Hmax Hlarge (v_m v) image res (a_mem (get_alloc v s)) o) as H.
